@@ -360,7 +360,8 @@ class VRef(V):
         raise Unsupported("references cannot be stored in symbolic containers")
 
     def __repr__(self):
-        return f"Ref({self.addr}{':' + self.cls.name if self.cls else ''})"
+        cn = getattr(self.cls, "name", self.cls)
+        return f"Ref({self.addr}{':' + str(cn) if self.cls else ''})"
 
 
 # ----------------------------------------------------------------------------
